@@ -244,11 +244,12 @@ def run_check(pid, tier, seed, procs, t0):
     for tgt, v in xviol:
         if tgt in refuted_targets:
             continue
-        if tgt in fully_proved:
+        if tgt in fully_proved and not undecided and not refuted_targets:
             status_err.append("CPython cross-check: real execution of %s violates proved contract clauses %s on input %s" % (tgt, v.get("failed"), json.dumps(v.get("inputs"))[:300]))
             continue
-        # the FUC could not be (fully) verified on this tree AND a real execution violates its contract:
-        # a replayed failing input on the real code is a violation in its own right
+        # the FUC - or, when it was proved, a function whose contract its proof relies on - could not be verified on
+        # this tree AND a real execution violates its contract: a replayed failing input on the real code is a
+        # violation in its own right (modular proofs only hold when every contract in the chain is established)
         if tgt in seen_x:
             continue
         seen_x.add(tgt)
